@@ -7,6 +7,7 @@ import numpy as np
 
 from framework import oracles as O
 from framework.monitors import Base, MonitorViolation  # noqa: F401
+from framework.planes.linebudget import BudgetExceeded
 
 MIN, MAX = 0, 1
 EV_MIN, EV_MAX, EV_GROUND = 1, 2, 4
@@ -40,6 +41,26 @@ def _views(args, p, top):
 def _params(args, p):
     pb = args[A_PB]
     return args[A_PP][int(pb[p, 0]):int(pb[p, 1])]
+
+
+def budgeted_call(hub, f, views, params):
+    """A monitor's own re-execution of a real propagator, under the same line budget as the engine's executions
+    (an endless propagator loop must not hang the monitor). Raises BudgetExceeded."""
+    from framework.planes.linebudget import line_limit
+
+    lb = getattr(hub, "linebudget", None)
+    saved = hub.subs
+    hub.subs = {}
+    try:
+        if lb is not None:
+            lb.begin(line_limit(len(views), len(params)))
+        try:
+            return int(f(views, params))
+        finally:
+            if lb is not None:
+                lb.end()
+    finally:
+        hub.subs = saved
 
 
 def ref_bc(hub, args, stack_row, flags_row, queue, fix=None, pop_override=None):
@@ -187,12 +208,14 @@ class Fixpoint(Base):
             views, idxs, offs = _views(args, p, top)
             v0 = views.copy()
             f = _unwrapped(self.PP.COMPUTE_DOMAINS_FCTS[alg])
-            saved = self.hub.subs
-            self.hub.subs = {}
             try:
-                st = int(f(views, _params(args, p)))
-            finally:
-                self.hub.subs = saved
+                st = budgeted_call(self.hub, f, views, _params(args, p))
+            except BudgetExceeded as e:
+                self.fail("C08", "reexecution_did_not_complete",
+                          "constraint #%d %s%r re-executed on views %r: %s" % (p, name, _params(args, p).tolist(),
+                                                                            v0.tolist(), e),
+                          constraint=name, queued=bool(queue[p]), last=(p == self.last_prop))
+                continue
             self.c("reexecutions")
             if st == ST_INC:
                 self.fail("C08", "reexecution_fails",
@@ -269,12 +292,10 @@ class Fixpoint(Base):
             views, idxs, offs = _views(a2, p, 0)
             v0 = views.copy()
             f = _unwrapped(self.PP.COMPUTE_DOMAINS_FCTS[alg])
-            saved = self.hub.subs
-            self.hub.subs = {}
             try:
-                s2 = int(f(views, _params(args, p)))
-            finally:
-                self.hub.subs = saved
+                s2 = budgeted_call(self.hub, f, views, _params(args, p))
+            except BudgetExceeded:
+                continue
             if s2 == ST_INC or not np.array_equal(views, v0):
                 self.fail("C08", "not_a_fixpoint_under_another_wakeup_order",
                           "entry %r: with constraint #%d woken before #%d (whose execution moved bounds %d of domain %d "
